@@ -303,8 +303,6 @@ class Versions:
                 alt = prop[comb][i]
                 outer = self.index.get((t, ("properties", kw)))
                 e["holders"] = [{"type": t, "key": kw, "guards": [outer] if outer else []}]
-                without = dict(prop)
-                without[comb] = [x for j, x in enumerate(prop[comb]) if j != i]
                 best = None
                 for c in self.candidates(alt) + POOL:
                     if not (self.valid(alt, c) and self.valid(prop, c)):
